@@ -181,6 +181,9 @@ def body():
     lines, cases = text_cases(c, chunkings)
     # composite objects
     comp = [{"kind": "composite", "obj": o, "seed": s, "id": 900000 + i} for i, (o, s) in enumerate((o, s) for o in ("sig", "ciphertext", "pubkeyinfo", "privkey", "pkcs8", "pkcs8enc", "name") for s in range(1, (6 if c.quick else 40)))]
+    # SM9 keys, with master secrets that begin with 0, 1, 2 zero octets (their INTEGER is then shorter than 32 octets) and SM2 private keys likewise
+    comp += [{"kind": "composite", "obj": o, "seed": sd, "lead": ld, "id": 940000 + i, "_tag": "lead%d:seed%d" % (ld, sd)} for i, (o, ld, sd) in enumerate(
+        (o, ld, sd) for o in ("sm9signmaster", "sm9encmaster", "sm9signkey", "sm9enckey") for ld in (0, 1, 2, 31) for sd in range(1, 3 if c.quick else 8))]
     # SM2 ciphertext / signature DER whose sizes walk across the capacity of the decoded object and the DER length-form switches: accepted ones re-encode
     # identically, oversized ones are refused (the decoded object is an exact-size allocation)
     import sm2ref
